@@ -29,6 +29,12 @@ def jobs(tier):
                       unwind=2 * L + 3, fp=FP, native={"sources": [s for s in SRC if s != "Lib/core/mod.c"]},
                       symbolic=["op[0..L)", "re-entrant action of each invoked handler", "clock values"],
                       bounds="L=%d" % L, timeout=900 if tier == "quick" else 3000))
+    for depth in (0, 1, 2):
+        js.append(Job("C17.guard.d%d" % depth, "l1/c17_guard.c", sources=SRC, extra_harness=["common/vf_defs.c"],
+                      remove=["m_ctx"], fsa=1024, layer="l1", backend="cadical", defines={"DEPTH": depth}, unwind=5,
+                      fp=core_fp(mem_dtors=[], on_evt=["h0", "h1", "h2"]),
+                      symbolic=["module state (5)", "token count (u64)", "become or unbecome"],
+                      bounds="one call, handler stack depth %d" % depth, timeout=600))
     return js
 
 
